@@ -47,11 +47,11 @@ def connected_sets(n: int, edges: List[Tuple[int, int]], tree: bool) -> Set[Tupl
     return out
 
 
-def ref_vertices_connected(n: int, edges: List[Tuple[int, int]], acyclic: bool):
+def ref_vertices_connected(n: int, edges: List[Tuple[int, int]], acyclic: bool, act=None, prefix: str = ""):
     cn = Canon({})
-    A = lambda i: ("A", i)  # noqa: E731
-    R = lambda i: ("rank", i)  # noqa: E731
-    Z = lambda i: ("root", i)  # noqa: E731
+    A = act or (lambda i: ("A", i))  # noqa: E731
+    R = lambda i: (prefix + "rank", i)  # noqa: E731
+    Z = lambda i: (prefix + "root", i)  # noqa: E731
     adj = adjacency(n, edges)
 
     def cons() -> List[Tuple]:
@@ -69,7 +69,7 @@ def ref_vertices_connected(n: int, edges: List[Tuple[int, int]], acyclic: bool):
         out.append(cn.cmp("<=", cn.add([("b2i", Z(i)) for i in range(n)]), ("c", 1)))
         return out
 
-    return [RefArray("rank", "i", n, need=n), RefArray("root", "b", n)], cons
+    return [RefArray(prefix + "rank", "i", n, need=n), RefArray(prefix + "root", "b", n)], cons
 
 
 def check_encoding(repo: Repo, rep: Report) -> None:
